@@ -50,6 +50,7 @@ def default_params():
         gets="early",               # deferred API: when get_*() are requested: early | late | tape | after (closed)
         third=None,                 # None | "before" | "after": a raw third client claims the nameplate
         hs_fail=[0, 0],             # budget of reconnections whose WebSocket negotiation fails
+        get_burst=0,                # Deferred API: that many get_message() calls issued back to back at the end
         gets_lag=False,             # Deferred API: get_message() lags behind the arrivals (see lag_ok)
         w_due=None,                 # scheduling weight of eventual-queue turns (default w_progress)
         w_c2s=None,                 # [w0, w1] scheduling weight of the server reading each client's commands
@@ -284,6 +285,7 @@ def run(P, on_step=None, setup=None, at_stable=None, adversary=None, on_idle=Non
     W = World(entropy_key(P), welcome_motd=P["welcome_motd"], welcome_error=P["welcome_error"])
     if P.get("welcome_error_late"):
         W.late_welcome = tuple(P["welcome_error_late"])
+    W.clean_drops = bool(P.get("clean_drops", True))       # some connection losses are graceful closes (code 1000)
     rec.world = W
     tape = Tape(P["tape"])
     try:
@@ -683,6 +685,9 @@ def _run(P, rec, W, tape, on_step, setup, at_stable, adversary=None, on_idle=Non
             for g in list(gets_pending[i]):
                 gets_pending[i].remove(g)
                 _request_get(rec, i, g)
+            # a reader that asks for a whole batch of messages in one go (all requests in one reactor turn)
+            for _ in range(P.get("get_burst") or 0):
+                _request_get(rec, i, "msg")
         rec.settle.append(_settle(W, P))
     rec.stable_snapshot = dict(
         kinds=[rec.kinds(0), rec.kinds(1)],
